@@ -25,16 +25,16 @@ import (
 
 // Site is one obligation.
 type Site struct {
-	Pkg    *packages.Package
-	File   *ast.File
-	Pos    token.Position
-	Kind   string // IsInBounds | IsSliceInBounds | panic | typeassert | div
-	Node   ast.Node
-	Func   string // enclosing function, T.M for methods, with $n for literals
+	Pkg      *packages.Package
+	File     *ast.File
+	Pos      token.Position
+	Kind     string // IsInBounds | IsSliceInBounds | panic | typeassert | div
+	Node     ast.Node
+	Func     string // enclosing function, T.M for methods, with $n for literals
 	FuncDecl ast.Node
-	Expr   string // normalised expression
-	Ord    int    // ordinal among same (Func, Kind, Expr)
-	Operand types.Type // type of the indexed operand (bounds kinds)
+	Expr     string     // normalised expression
+	Ord      int        // ordinal among same (Func, Kind, Expr)
+	Operand  types.Type // type of the indexed operand (bounds kinds)
 }
 
 // Key is the stable identity used by tables and known findings.
